@@ -22,6 +22,7 @@ import (
 //	patch      the operations of the main stream (value / valueFrom / from; pointers with ~0 / ~1 escapes)
 //	set        payloads and target paths over those names
 //	roundtrip  export -> import of subtrees whose keys are such names
+//	template / import (text, binary) / env  target paths over those names, contents that look like other notations
 //
 // through the same evaluations (all predicates, the RFC 6902 reference, the model) as every other case.
 //
@@ -143,6 +144,38 @@ func c13RunLook(c *Ctx) {
 		}
 		c.Do("roundtrip", cr)
 	}
+	// template / import / env: target paths over such names (what is stored is stored at exactly that path)
+	for i := 0; i < c.N(120); i++ {
+		c.Tick()
+		g := c13LookGen(r)
+		data := g.Doc(r)
+		ct := c13Template{Data: data, Path: c13Target(r, g, data), Via: c13PickVia(r), ParseAs: pick(r, []*string{nil, strp("none"), strp("yaml")}),
+			Parts: []c13Part{{Lit: pick(r, []string{"text", "/a", "a: 1", "k=v", "- 1\n- 2", "%s", "[section]", "*"})}}}
+		if r.Intn(2) == 0 {
+			ct.Parts = []c13Part{{Yaml: c13PlainTree(r, 0)}}
+			ct.ParseAs = strp("yaml")
+		}
+		c.Do("template", ct)
+	}
+	for i := 0; i < c.N(120); i++ {
+		c.Tick()
+		g := c13LookGen(r)
+		data := g.Doc(r)
+		ci := c13Import{Data: data, Mode: pick(r, []string{"", "text", "binary"}), Path: c13Target(r, g, data), Via: c13PickVia(r),
+			Content: []byte(pick(r, []string{"", "/a/b", "k=v", "[section]\nname=value", "no final line end", "%d %s\n", "a.b[0]: x\n", "*.yaml\n?", "\\n\\t"}))}
+		c.Do("import", ci)
+	}
+	for i := 0; i < c.N(80); i++ {
+		c.Tick()
+		g := c13LookGen(r)
+		data := g.Doc(r)
+		ce := c13Env{Data: data, Include: pick(r, []*string{nil, strp("^YTKV_")}), Exclude: pick(r, []*string{nil, strp("B")}), Via: c13PickVia(r),
+			Env: [][2]string{{"YTKV_A", pick(r, []string{"1", "/a/b", "k=v", "%s", "*", "[x]", "a.b[0]"})}, {"YTKV_B", "x y"}, {"OTHER", "o"}}}
+		if r.Intn(3) > 0 {
+			ce.Path = c13Target(r, g, data)
+		}
+		c.Do("env", ce)
+	}
 	// the directory for temporary files on another file system than the export target
 	gb := stdGen()
 	gb.PLeaf = 0.4
@@ -230,4 +263,4 @@ func c13MaybeTmpElsewhere(c *Ctx, flag bool, dir string) func() {
 	return restore
 }
 
-const c13RuleLook = " ROUND 6 (c13_look.go): SYNTAX LOOK-ALIKES — a stream of patch (value / valueFrom / from; pointer strings with ~0 / ~1 escapes), set and roundtrip cases runs on documents whose keys are path-safe (no dot, no index group) but LOOK LIKE another notation, each next to its plain twin: `/a` next to `a`, `/metrics`, `a/b` next to a.b, `~0`, `~1a`, `~a`, `k=v`, `*`, `a?`, `%s`, `\\n`, `$x`, `-`, `0`, `1`, `//`, `/` — a dotted path is a dotted path whatever its first component looks like (valueFrom `/a` names the member `/a`), preceded by a fixed table of the smallest such documents x add / replace / test with valueFrom; a third of these documents have rare SHAPES (lists directly in lists, empty collections followed by more content, narrow containers). ENVIRONMENT — a handful of roundtrip and export cases per run are executed while TMPDIR names a fresh directory on ANOTHER FILE SYSTEM than the export target (/dev/shm, /run/shm, /tmp, /var/tmp: the first writable one on another device; ignored when there is none; restored and removed afterwards): the export clause is stated for files, wherever the process keeps its temporary files."
+const c13RuleLook = " ROUND 6 (c13_look.go): SYNTAX LOOK-ALIKES — a stream of patch (value / valueFrom / from; pointer strings with ~0 / ~1 escapes), set, roundtrip, template, import (text / binary; contents such as `[section]`, `name=value`, a last line without line end) and env cases runs on documents whose keys are path-safe (no dot, no index group) but LOOK LIKE another notation, each next to its plain twin: `/a` next to `a`, `/metrics`, `a/b` next to a.b, `~0`, `~1a`, `~a`, `k=v`, `*`, `a?`, `%s`, `\\n`, `$x`, `-`, `0`, `1`, `//`, `/` — a dotted path is a dotted path whatever its first component looks like (valueFrom `/a` names the member `/a`), preceded by a fixed table of the smallest such documents x add / replace / test with valueFrom; a third of these documents have rare SHAPES (lists directly in lists, empty collections followed by more content, narrow containers). ENVIRONMENT — a handful of roundtrip and export cases per run are executed while TMPDIR names a fresh directory on ANOTHER FILE SYSTEM than the export target (/dev/shm, /run/shm, /tmp, /var/tmp: the first writable one on another device; ignored when there is none; restored and removed afterwards): the export clause is stated for files, wherever the process keeps its temporary files."
